@@ -251,7 +251,12 @@ def build_kwargs(problem, cfg, trace, hooks=None, checkpoint=None, x0=None):
     elif style == 6:
         kw["bounds"] = np.asfortranarray(kw["bounds"])
     trace.input_style = style
-    if cfg.get("fd_steps_as_strided_arrays"):
+    if "fd_step_objects" in hooks:
+        # the caller's own step arrays, the same objects in every call of a study
+        kw["eps"] = hooks["fd_step_objects"]["eps"]
+        if hooks["fd_step_objects"].get("rel") is not None:
+            kw["finite_diff_rel_step"] = hooks["fd_step_objects"]["rel"]
+    elif cfg.get("fd_steps_as_strided_arrays"):
         # the differencing steps given per variable, as non-contiguous views of a larger work array
         n_ = int(np.size(kw["x0"]))
         e_ = np.full(2 * n_, float(cfg.get("eps") or 1e-8))
